@@ -265,7 +265,7 @@ def run_seed(seed, profile=None, scratch_root=None):
     profile = profile or {}
     scn, rng = gen_scenario(seed, profile)
     stats = {}
-    out = {"seed": seed, "violations": [], "runs": 0, "sample": None}
+    out = {"seed": seed, "violations": [], "runs": 0, "sample": None, "scenario_digest": _digest(scn)}
     res = execute(scn, scratch_root)
     out["runs"] += 1
     summarise_events(scn, res, stats)
@@ -293,7 +293,16 @@ def run_seed(seed, profile=None, scratch_root=None):
     stats["sites"] = sorted(stats.get("sites", ()))
     stats["distinct"] = sorted(stats.get("distinct", ()), key=repr)
     out["stats"] = stats
+    out["log_digest"] = _digest([[e.get("op"), e.get("outcome"), e.get("fired"), e.get("extent"), e.get("diffs")]
+                                 for e in res["events"]])
     return out
+
+
+def _digest(obj):
+    import hashlib
+    import json
+
+    return hashlib.sha256(json.dumps(obj, sort_keys=True, default=repr).encode()).hexdigest()[:16]
 
 
 # ----------------------------------------------------------------- exhaustive tier
